@@ -1162,3 +1162,273 @@ Qed.
 End WithFirst.
 
 End P.
+
+(* ------------------------------------------------------------------ *)
+(* The mode class: __build_states finds exactly the states of the class *)
+
+Lemma assoc_some_in {A} (c : list (name * A)) n a : assoc c n = Some a -> In n (map fst c).
+Proof.
+  unfold assoc. induction c as [|[k v] c IH]; cbn; [discriminate|].
+  destruct (Nat.eqb k n) eqn:E; [apply Nat.eqb_eq in E; auto|auto].
+Qed.
+
+Lemma assoc_none_notin {A} (c : list (name * A)) n : assoc c n = None -> ~ In n (map fst c).
+Proof.
+  unfold assoc. induction c as [|[k v] c IH]; cbn; [tauto|].
+  destruct (Nat.eqb k n) eqn:E; [discriminate|].
+  apply Nat.eqb_neq in E. intros H [H1|H1]; [congruence|exact (IH H H1)].
+Qed.
+
+Lemma class_getattr_dir m n : In n (class_dir m) <-> class_getattr m n <> None.
+Proof.
+  unfold class_dir. rewrite nodup_In. induction m as [|c r IH]; cbn.
+  - tauto.
+  - rewrite in_app_iff. destruct (assoc c n) eqn:E.
+    + split; [discriminate|]. intros _. left. eapply assoc_some_in; eauto.
+    + rewrite <- IH. split; [|tauto]. intros [H|H]; [|exact H].
+      exfalso. eapply assoc_none_notin; eauto.
+Qed.
+
+Lemma is_first_getattr m n : is_first m n = true <-> exists d, class_getattr m n = Some (AState d true).
+Proof.
+  unfold is_first. destruct (class_getattr m n) as [[d [|]|]|]; split; try discriminate; eauto.
+  all: intros [d' H]; discriminate.
+Qed.
+
+Lemma is_first_in_dir m n : is_first m n = true -> In n (class_dir m).
+Proof. intros H. apply class_getattr_dir. apply is_first_getattr in H as [d H]. congruence. Qed.
+
+Lemma build_loop_lookup m names : forall first l fi, build_loop m names first = inr (l, fi) ->
+  forall n, assoc l n = if existsb (Nat.eqb n) names then state_decl (class_getattr m n) else None.
+Proof.
+  induction names as [|k r IH]; cbn [build_loop existsb]; intros first l fi H n.
+  - inversion H. reflexivity.
+  - destruct (class_getattr m k) as [[d f|]|] eqn:E.
+    + assert (exists l', build_loop m r (if f then Some k else first) = inr (l', fi) /\ l = (k, d) :: l') as [l' [H1 ->]].
+      { destruct f, first; try discriminate;
+        match type of H with context [build_loop ?a ?b ?c] => destruct (build_loop a b c) as [|[l' fi']] end;
+        try discriminate; inversion H; eauto. }
+      specialize (IH _ _ _ H1 n). unfold assoc in *. cbn [find fst].
+      rewrite (Nat.eqb_sym n k).
+      destruct (Nat.eqb k n) eqn:Ek; cbn [orb].
+      * apply Nat.eqb_eq in Ek. subst. rewrite E. reflexivity.
+      * exact IH.
+    + specialize (IH _ _ _ H n). rewrite IH.
+      destruct (Nat.eqb n k) eqn:Ek; cbn [orb]; [|reflexivity].
+      apply Nat.eqb_eq in Ek. subst. rewrite E. destruct (existsb (Nat.eqb k) r); reflexivity.
+    + specialize (IH _ _ _ H n). rewrite IH.
+      destruct (Nat.eqb n k) eqn:Ek; cbn [orb]; [|reflexivity].
+      apply Nat.eqb_eq in Ek. subst. rewrite E. destruct (existsb (Nat.eqb k) r); reflexivity.
+Qed.
+
+Definition onat (o : option name) : nat := match o with Some _ => 1%nat | None => 0%nat end.
+
+Lemma build_loop_first m names : forall first,
+  match build_loop m names first with
+  | inl e => e = MultipleFirst /\ (1 < length (filter (is_first m) names) + onat first)%nat
+  | inr (l, fi) => (length (filter (is_first m) names) + onat first <= 1)%nat /\
+                   fi = match filter (is_first m) names with [] => first | f :: _ => Some f end
+  end.
+Proof.
+  induction names as [|k r IH]; cbn [build_loop filter]; intros first.
+  - split; [destruct first; cbn; lia|reflexivity].
+  - assert (Hif : is_first m k = match class_getattr m k with Some (AState _ true) => true | _ => false end) by reflexivity.
+    destruct (class_getattr m k) as [[d [|]|]|] eqn:E; rewrite Hif.
+    + destruct first as [x|].
+      * cbn. split; [reflexivity|lia].
+      * specialize (IH (Some k)). destruct (build_loop m r (Some k)) as [e|[l fi]].
+        -- cbn in *. destruct IH. split; [assumption|lia].
+        -- cbn in *. destruct IH as [H1 H2]. split; [lia|].
+           destruct (filter (is_first m) r); [assumption|cbn in H1; lia].
+    + specialize (IH first).
+      destruct first; destruct (build_loop m r _) as [e|[l fi]]; exact IH.
+    + apply IH.
+    + apply IH.
+Qed.
+
+Lemma filter_first_in m n : In n (filter (is_first m) (class_dir m)) <-> is_first m n = true.
+Proof.
+  rewrite filter_In. split; [tauto|]. intros H. split; [apply is_first_in_dir|]; assumption.
+Qed.
+
+Lemma nodup_firsts m : NoDup (filter (is_first m) (class_dir m)).
+Proof. apply NoDup_filter. apply NoDup_nodup. Qed.
+
+Theorem build_states_ok inf m sh : build_states inf m = inr sh ->
+  (forall n, lookup sh n = state_decl (class_getattr m n)) /\
+  is_first m (sh_first sh) = true /\
+  (forall n, is_first m n = true -> n = sh_first sh) /\
+  declared sh (sh_first sh) = true /\
+  sh_inf sh = inf.
+Proof.
+  unfold build_states. intros H.
+  pose proof (build_loop_first m (class_dir m) None) as HF.
+  destruct (build_loop m (class_dir m) None) as [e|[l [f|]]] eqn:EB; try discriminate.
+  inversion H; subst sh; clear H. cbn [sh_first sh_inf].
+  destruct HF as [HL Hfi].
+  assert (Hlk : forall n, lookup {| sh_states := l; sh_first := f; sh_inf := inf |} n = state_decl (class_getattr m n)).
+  { intros n. change (assoc l n = state_decl (class_getattr m n)).
+    rewrite (build_loop_lookup _ _ _ _ _ EB).
+    destruct (existsb (Nat.eqb n) (class_dir m)) eqn:Hi; [reflexivity|].
+    destruct (class_getattr m n) eqn:Eg; [|reflexivity]. exfalso.
+    assert (In n (class_dir m)) as Hin by (apply class_getattr_dir; congruence).
+    assert (existsb (Nat.eqb n) (class_dir m) = true) by (apply existsb_exists; exists n; split; [exact Hin|apply Nat.eqb_refl]).
+    congruence. }
+  destruct (filter (is_first m) (class_dir m)) as [|f0 rest] eqn:EF; [discriminate|].
+  inversion Hfi; subst f0. cbn in HL.
+  assert (rest = []) by (destruct rest; [reflexivity|cbn in HL; lia]). subst rest.
+  assert (Hf : is_first m f = true) by (apply filter_first_in; rewrite EF; left; reflexivity).
+  split; [exact Hlk|]. split; [exact Hf|]. split.
+  - intros n Hn. apply filter_first_in in Hn. rewrite EF in Hn. destruct Hn as [->|[]]. reflexivity.
+  - split; [|reflexivity]. unfold declared. rewrite Hlk.
+    apply is_first_getattr in Hf as [d ->]. reflexivity.
+Qed.
+
+Theorem build_states_constructs inf m :
+  (exists sh, build_states inf m = inr sh) <->
+  (exists f, is_first m f = true /\ forall n, is_first m n = true -> n = f).
+Proof.
+  split.
+  - intros [sh H]. apply build_states_ok in H as (_ & H1 & H2 & _). eauto.
+  - intros [f [Hf Hu]]. unfold build_states.
+    pose proof (build_loop_first m (class_dir m) None) as HF.
+    pose proof (nodup_firsts m) as ND.
+    assert (EF : filter (is_first m) (class_dir m) = [f]).
+    { destruct (filter (is_first m) (class_dir m)) as [|a rest] eqn:E.
+      - apply filter_first_in in Hf. rewrite E in Hf. destruct Hf.
+      - assert (a = f) by (apply Hu; apply filter_first_in; rewrite E; left; reflexivity). subst a.
+        destruct rest as [|b rest]; [reflexivity|].
+        assert (b = f) by (apply Hu; apply filter_first_in; rewrite E; right; left; reflexivity). subst b.
+        inversion ND as [|? ? Hn _]. exfalso. apply Hn. left. reflexivity. }
+    rewrite EF in HF.
+    destruct (build_loop m (class_dir m) None) as [e|[l fi]].
+    + cbn in HF. destruct HF. lia.
+    + destruct HF as [_ ->]. eauto.
+Qed.
+
+Theorem build_states_no_first inf m :
+  build_states inf m = inl NoFirst <-> forall n, is_first m n = false.
+Proof.
+  unfold build_states.
+  pose proof (build_loop_first m (class_dir m) None) as HF.
+  destruct (build_loop m (class_dir m) None) as [e|[l fi]] eqn:EB.
+  - destruct HF as [-> HL]. split; [discriminate|]. intros H. exfalso.
+    destruct (filter (is_first m) (class_dir m)) as [|a rest] eqn:E; [cbn in HL; lia|].
+    assert (is_first m a = true) by (apply filter_first_in; rewrite E; left; reflexivity).
+    rewrite H in *. discriminate.
+  - destruct HF as [HL ->]. destruct (filter (is_first m) (class_dir m)) as [|a rest] eqn:E.
+    + split; [|reflexivity]. intros _ n. destruct (is_first m n) eqn:En; [|reflexivity].
+      apply filter_first_in in En. rewrite E in En. destruct En.
+    + split; [discriminate|]. intros H.
+      assert (is_first m a = true) by (apply filter_first_in; rewrite E; left; reflexivity).
+      rewrite H in *. discriminate.
+Qed.
+
+Theorem build_states_multiple_first inf m :
+  build_states inf m = inl MultipleFirst <->
+  exists a b, a <> b /\ is_first m a = true /\ is_first m b = true.
+Proof.
+  unfold build_states.
+  pose proof (build_loop_first m (class_dir m) None) as HF.
+  pose proof (nodup_firsts m) as ND.
+  destruct (build_loop m (class_dir m) None) as [e|[l fi]] eqn:EB.
+  - destruct HF as [-> HL]. split; [intros _|reflexivity].
+    destruct (filter (is_first m) (class_dir m)) as [|a [|b rest]] eqn:E; try (cbn in HL; lia).
+    exists a, b. split.
+    + intros ->. inversion ND as [|? ? Hn _]. apply Hn. left. reflexivity.
+    + split; apply filter_first_in; rewrite E; cbn; auto.
+  - destruct HF as [HL ->]. split.
+    + destruct (filter (is_first m) (class_dir m)); discriminate.
+    + intros (a & b & Hab & Ha & Hb). exfalso.
+      apply filter_first_in in Ha, Hb.
+      destruct (filter (is_first m) (class_dir m)) as [|x [|y rest]] eqn:E.
+      * destruct Ha.
+      * destruct Ha as [<-|[]], Hb as [<-|[]]. congruence.
+      * cbn in HL. lia.
+Qed.
+
+Lemma mode_duration_eq inf m sh d s : build_states inf m = inr sh ->
+  period_duration sh d s = mode_duration inf m d s.
+Proof.
+  intros H. apply build_states_ok in H as (Hlk & _ & _ & _ & Hinf).
+  unfold period_duration, mode_duration. rewrite Hlk, Hinf.
+  destruct (class_getattr m s) as [[[dflt nx|] f|]|]; reflexivity.
+Qed.
+
+(* the clauses of the property stated on the CLASS: hypotheses about a state
+   read its definition through getattr on the class, wherever in the MRO it is *)
+Section Mode.
+Variable inf : Z.
+Variable m : mro.
+Variable sh : shape.
+Hypothesis Hb : build_states inf m = inr sh.
+
+Lemma mode_lookup n : lookup sh n = state_decl (class_getattr m n).
+Proof. apply (build_states_ok _ _ _ Hb). Qed.
+
+Lemma mode_first_declared : declared sh (sh_first sh) = true.
+Proof. apply (build_states_ok _ _ _ Hb). Qed.
+
+Lemma mode_declared n : declared sh n = is_state m n.
+Proof. unfold declared, is_state. rewrite mode_lookup. reflexivity. Qed.
+
+Lemma mode_lookup_state s d f : class_getattr m s = Some (AState d f) -> lookup sh s = Some d.
+Proof. intros H. rewrite mode_lookup, H. reflexivity. Qed.
+
+Theorem mode_first_runs h d tm b :
+  is_first m (sh_first sh) = true /\
+  calls (iter_after sh (h ++ [OnEnable d]) tm b) = [EvCall (sh_first sh) tm 0 true].
+Proof.
+  split; [apply (build_states_ok _ _ _ Hb)|apply (first_runs sh mode_first_declared)].
+Qed.
+
+Theorem mode_holds_until_expiry h s st0 d tm b :
+  status_tr (trace sh h) = Running s ->
+  last_call_start (trace sh h) None = Some (s, st0) ->
+  last_dash h None = Some d ->
+  tm <= st0 + mode_duration inf m d s ->
+  calls (iter_after sh h tm b) = [EvCall s tm (tm - st0) false] /\
+  status_tr (trace sh (h ++ [OnIteration tm b])) =
+    status_acts sh (b s tm (tm - st0) false) (Running s).
+Proof.
+  intros H1 H2 H3 H4. rewrite <- (mode_duration_eq _ _ _ _ _ Hb) in H4.
+  exact (holds_until_expiry sh mode_first_declared h s st0 d tm b H1 H2 H3 H4).
+Qed.
+
+Theorem mode_hands_over_at_expiry h s st0 d tm b dflt n f :
+  status_tr (trace sh h) = Running s ->
+  last_call_start (trace sh h) None = Some (s, st0) ->
+  last_dash h None = Some d ->
+  st0 + mode_duration inf m d s < tm ->
+  class_getattr m s = Some (AState (Timed dflt (Some n)) f) -> is_state m n = true ->
+  let expiry := st0 + mode_duration inf m d s in
+  exists rest,
+    iter_after sh h tm b = EvEnter (Some n) :: EvCall n tm (tm - expiry) true :: rest /\
+    calls rest = [] /\
+    status_tr (trace sh (h ++ [OnIteration tm b])) =
+      status_acts sh (b n tm (tm - expiry) true) (Running n) /\
+    last_call_start (trace sh (h ++ [OnIteration tm b])) None = Some (n, expiry).
+Proof.
+  intros H1 H2 H3 H4 H5 H6. rewrite <- (mode_duration_eq _ _ _ _ _ Hb) in *.
+  apply mode_lookup_state in H5. rewrite <- mode_declared in H6.
+  destruct (hands_over_at_expiry sh mode_first_declared h s st0 d tm b dflt n H1 H2 H3 H4 H5 H6)
+    as (rest & Ha & Hc & Hd).
+  exists rest. repeat split; try assumption.
+  apply (successor_clock sh mode_first_declared h s st0 d tm b dflt n H1 H2 H3 H4 H5 H6).
+Qed.
+
+Theorem mode_last_state_expires h s st0 d tm b dflt f :
+  status_tr (trace sh h) = Running s ->
+  last_call_start (trace sh h) None = Some (s, st0) ->
+  last_dash h None = Some d ->
+  st0 + mode_duration inf m d s < tm ->
+  class_getattr m s = Some (AState (Timed dflt None) f) ->
+  iter_after sh h tm b = [EvEnter None] /\
+  status_tr (trace sh (h ++ [OnIteration tm b])) = Ended.
+Proof.
+  intros H1 H2 H3 H4 H5. rewrite <- (mode_duration_eq _ _ _ _ _ Hb) in *.
+  apply mode_lookup_state in H5.
+  exact (last_state_expires sh mode_first_declared h s st0 d tm b dflt H1 H2 H3 H4 H5).
+Qed.
+
+End Mode.
